@@ -990,6 +990,8 @@ namespace fixedmath
     
     constexpr fixed_internal _39o16 { 159744 }; // 19/16
     constexpr fixed_internal atan_39o16 { 77429 }; //77429,4473907736
+    
+    constexpr fixed_internal _65536 { fixed_internal{1} << 32 }; // 65536
 
     fixed_internal x { value.v };
     bool sign_ {};
@@ -1007,8 +1009,11 @@ namespace fixedmath
       result = atan_sum<prec_, atan_11o16, _11o16>( x );
     else if( x < _39o16 )
       result = atan_sum<prec_, atan_19o16, _19o16>( x );
-    else
+    else if( x < _65536 )
       result = atan_sum<prec_, atan_39o16, _39o16>( x );
+    else
+      //arctan (x) = 0.5 * pi - arctan(1/x), x*c and (x-c)<<16 in atan_sum do not fit in fixed_internal for large x
+      result = fixpidiv2.v - atan<prec_>( detail::div_<prec_>( detail::fix_<prec_>(1), x ) );
     
     if( !sign_)
       return as_fixed(result);
